@@ -103,9 +103,58 @@ Holds(a, l, r) ==
       [] a = "length_less" -> LenRel(l, r, {"lt"}) [] a = "length_greater_equal" -> LenRel(l, r, {"gt", "eq"})
       [] OTHER -> "U"
 Unary(a) == a \in {"is_none", "is_not_none", "true", "false"}
+\* operand domains of the assertion families added after the first table
+IdentityVals == {"none", "bT", "i1", "i2", "L12", "L0"}         \* singletons cached by CPython, and lists (always distinct objects)
+TypeNames == {"t:int", "t:float", "t:str", "t:list", "t:bool", "t:tuple"}
+Patterns == {"re:ab.", "re:^b", "re:z", "re:[0-9]"}
+\* output assertions: the left operand is an execution that printed, the right one the expected text
+Outputs == {"o:abc", "o:ABC!", "o:abd", "o:none", "o:two", "err"}
+OutTexts == {"abc", "ABC", "abc!", "abd", "empty", "two"}
+OutFam(a) == a \in {"output", "not_output", "output_contains", "not_output_contains"}
+\* documented normal form: lower-case, punctuation removed, split into lines, empty lines dropped, lines sorted
+NF(x) == CASE x \in {"o:abc", "o:ABC!", "abc", "ABC", "abc!"} -> {"abc"} [] x \in {"o:abd", "abd"} -> {"abd"}
+           [] x \in {"o:two", "two"} -> {"abc", "abd"} [] OTHER -> {}
+\* lower-cased text IN lower-cased output (run of characters anywhere); o:two prints "abd" then "abc"
+ContainsPairs == {<<o, "empty">> : o \in Outputs \ {"err"}}
+    \cup {<<"o:abc", "abc">>, <<"o:abc", "ABC">>, <<"o:ABC!", "abc">>, <<"o:ABC!", "ABC">>, <<"o:ABC!", "abc!">>,
+          <<"o:two", "abc">>, <<"o:two", "ABC">>, <<"o:abd", "abd">>, <<"o:two", "abd">>}
+LDom(a) == IF OutFam(a) THEN Outputs
+           ELSE IF a \in {"is", "is_not"} THEN IdentityVals \cap ValNames
+           ELSE IF a \in {"regex", "not_regex"} THEN Patterns ELSE ValNames
+RDom(a) == IF OutFam(a) THEN OutTexts
+           ELSE IF Unary(a) THEN {"none"}
+           ELSE IF a \in {"is", "is_not"} THEN IdentityVals \cap ValNames
+           ELSE IF a \in {"is_instance", "not_is_instance"} THEN TypeNames
+           ELSE IF a \in {"regex", "not_regex"} THEN {"abc", "ABC", "abc!", "abd", "empty", "i1", "L12", "none", "err"} \cap (ValNames \cup {"err"})
+           ELSE ValNames
+InstanceOf(v, t) == CASE t = "t:int" -> v.k \in {"int", "bool"} [] t = "t:float" -> v.k = "float" [] t = "t:str" -> v.k = "str"
+                      [] t = "t:list" -> v.k = "list" [] t = "t:bool" -> v.k = "bool" [] t = "t:tuple" -> v.k = "tuple" [] OTHER -> FALSE
+\* re.search(pattern, str(text)) on the universe's texts
+TextOf(n) == CASE n = "abc" -> "abc" [] n = "ABC" -> "ABC" [] n = "abc!" -> "abc!" [] n = "abd" -> "abd" [] n = "empty" -> ""
+               [] n = "i1" -> "1" [] n = "L12" -> "[1, 2]" [] n = "none" -> "None" [] OTHER -> "?"
+Matches(p, t) == CASE p = "re:ab." -> t \in {"abc", "abc!", "abd"}      \* 'ab' followed by any character
+                   [] p = "re:^b" -> FALSE
+                   [] p = "re:z" -> FALSE
+                   [] p = "re:[0-9]" -> t \in {"1", "[1, 2]"}
+                   [] OTHER -> FALSE
+HoldsN(a, ln, rn) ==
+    \* families whose relation is about object identity, types or patterns: defined on operand NAMES
+    IF ln = "err" \/ rn = "err" THEN "U" ELSE
+    CASE a = "is" -> B(ln = rn /\ Val(ln).k \in {"none", "bool", "int"})
+      [] a = "is_not" -> B(~(ln = rn /\ Val(ln).k \in {"none", "bool", "int"}))
+      [] a = "is_instance" -> B(InstanceOf(Val(ln), rn))
+      [] a = "not_is_instance" -> B(~InstanceOf(Val(ln), rn))
+      [] a = "output" -> B(NF(ln) = NF(rn)) [] a = "not_output" -> B(NF(ln) # NF(rn))
+      [] a = "output_contains" -> B(<<ln, rn>> \in ContainsPairs) [] a = "not_output_contains" -> B(<<ln, rn>> \notin ContainsPairs)
+      [] a = "regex" -> B(Matches(ln, TextOf(rn)))
+      [] a = "not_regex" -> B(~Matches(ln, TextOf(rn)))
+      [] OTHER -> "U"
+ByName(a) == OutFam(a) \/ a \in {"is", "is_not", "is_instance", "not_is_instance", "regex", "not_regex"}
 Negation(a) == CASE a = "equal" -> "not_equal" [] a = "in" -> "not_in" [] a = "is_none" -> "is_not_none"
                  [] a = "true" -> "false" [] a = "less" -> "greater_equal" [] a = "greater" -> "less_equal"
                  [] a = "length_equal" -> "length_not_equal" [] a = "length_less" -> "length_greater_equal"
+                 [] a = "is" -> "is_not" [] a = "is_instance" -> "not_is_instance" [] a = "regex" -> "not_regex"
+                 [] a = "output" -> "not_output" [] a = "output_contains" -> "not_output_contains"
                  [] OTHER -> "-"
 
 (* ---------- state machine: one assertion call, or one unit_test ---------- *)
@@ -114,13 +163,14 @@ vars == <<kind, a, l, r, verdict, cases, done, passed>>
 Outcomes == {"pass", "wrong", "raises"}
 SeqsUpTo(S, n) == UNION {[1..k -> S] : k \in 1..n}
 
-Init == \/ /\ kind = "assert" /\ a \in Asserts /\ l \in ValNames /\ r \in (IF Unary(a) THEN {"none"} ELSE ValNames)
+HoldsAny(aa, x, y) == IF ByName(aa) THEN HoldsN(aa, x, y) ELSE Holds(aa, Val(x), Val(y))
+Init == \/ /\ kind = "assert" /\ a \in Asserts /\ l \in LDom(a) /\ r \in RDom(a)
            /\ verdict = "pending" /\ cases = <<>> /\ done = 0 /\ passed = 0
         \/ /\ kind = "unit_test" /\ MaxCases > 0 /\ a = "equal" /\ l = "none" /\ r = "none" /\ verdict = "pending"
            /\ cases \in SeqsUpTo(Outcomes, MaxCases) /\ done = 0 /\ passed = 0
 
 DoAssert == /\ kind = "assert" /\ verdict = "pending"
-            /\ verdict' = IF Holds(a, Val(l), Val(r)) = "T" THEN "silent" ELSE "fails"
+            /\ verdict' = IF HoldsAny(a, l, r) = "T" THEN "silent" ELSE "fails"
             /\ UNCHANGED <<kind, a, l, r, cases, done, passed>>
 \* unit_test: cases are processed in order; each is an assert_equal on the result of a call
 RunCase == /\ kind = "unit_test" /\ done < Len(cases)
@@ -137,18 +187,18 @@ Spec == Init /\ [][Next]_vars
 TheoremState == kind = "unit_test" /\ done = 0 /\ cases = <<"pass">>
 Evaluable(x, y) == Val(x).k # "err" /\ Val(y).k # "err"
 Complement == TheoremState => \A aa \in Asserts : Negation(aa) \in Asserts =>
-    \A x \in ValNames, y \in (IF Unary(aa) THEN {"none"} ELSE ValNames) :
-        (Evaluable(x, y) /\ Holds(aa, Val(x), Val(y)) # "U") =>
-            (Holds(aa, Val(x), Val(y)) = "T" <=> Holds(Negation(aa), Val(x), Val(y)) = "F")
+    \A x \in LDom(aa), y \in RDom(aa) :
+        (x # "err" /\ y # "err" /\ HoldsAny(aa, x, y) # "U") =>
+            (HoldsAny(aa, x, y) = "T" <=> HoldsAny(Negation(aa), x, y) = "F")
 EqSymmetric == TheoremState => \A x \in ValNames, y \in ValNames : Holds("equal", Val(x), Val(y)) = Holds("equal", Val(y), Val(x))
 NeverBothPass == TheoremState => \A aa \in Asserts : Negation(aa) \in Asserts =>
-    \A x \in ValNames, y \in (IF Unary(aa) THEN {"none"} ELSE ValNames) :
-        ~(Holds(aa, Val(x), Val(y)) = "T" /\ Holds(Negation(aa), Val(x), Val(y)) = "T")
+    \A x \in LDom(aa), y \in RDom(aa) :
+        ~(HoldsAny(aa, x, y) = "T" /\ HoldsAny(Negation(aa), x, y) = "T")
 UnitTestCount == kind = "unit_test" /\ verdict # "pending" =>
     /\ passed = Cardinality({i \in 1..Len(cases) : cases[i] = "pass"})
     /\ (verdict = "success" <=> \A i \in 1..Len(cases) : cases[i] = "pass")
 
 Export == verdict # "pending" =>
     PrintT(<<"VP", ToJson([kind |-> kind, a |-> a, l |-> l, r |-> r, verdict |-> verdict, cases |-> cases,
-                           passed |-> passed, holds |-> IF kind = "assert" THEN Holds(a, Val(l), Val(r)) ELSE "-"])>>)
+                           passed |-> passed, holds |-> IF kind = "assert" THEN HoldsAny(a, l, r) ELSE "-"])>>)
 =============================================================================
